@@ -156,6 +156,7 @@ inductive VRes where
   | ok (P : VPool) (shown : Int)
   | okEmpty (P : VPool)
   | panic (k : String)
+  | panicP (k : String) (P : VPool)   -- a panic after a by-value operand was moved out (dropped by unwinding)
   | bad
 
 def staticVal : Nat → Option Int
@@ -188,13 +189,16 @@ def vstep (P : VPool) (tok : String) : VRes :=
   | ["div", k, a, b] => bin k a b (fun x y => if y = 0 then none else some (Int.tdiv x y)) "DivideByZero"
   | ["rem", k, a, b] => bin k a b (fun x y => if y = 0 then none else some (Int.tmod x y)) "DivideByZero"
   | ["gcd", k, a, b] => bin k a b (fun x y => if x = 0 ∧ y = 0 then none else some (Int.gcd x y : Nat)) "GcdZeroZero"
-  | ["addm", k, a, b] | ["subm", k, a, b] | ["mulm", k, a, b] =>
+  | ["addm", k, a, b] | ["subm", k, a, b] | ["mulm", k, a, b] | ["divm", k, a, b] | ["remm", k, a, b] =>
     -- `regs[k] = regs[a].take() op &regs[b]` (the left operand is moved: its buffer is reused)
     (match reg k, reg a, reg b with
      | some k, some a, some b => if a = b then .bad else
         (match vget P a, vget P b with
          | some x, some y =>
-           let v := if parts.head! = "addm" then x + y else if parts.head! = "subm" then x - y else x * y
+           let h := parts.head!
+           if (h = "divm" || h = "remm") && y = 0 then .panicP "DivideByZero" (vset P a none) else
+           let v := if h = "addm" then x + y else if h = "subm" then x - y else if h = "mulm" then x * y
+                    else if h = "divm" then Int.tdiv x y else Int.tmod x y
            .ok (vset (vset P a none) k (some v)) v
          | _, _ => .bad)
      | _, _, _ => .bad)
@@ -245,6 +249,7 @@ partial def valLoop (P : VPool) (out : Array String) : List String → Option (V
     | .ok P' v => valLoop P' (out.push (intToHex v ++ "/ok")) ts
     | .okEmpty P' => valLoop P' (out.push "e") ts
     | .panic k => some (P, out.push ("!" ++ k))
+    | .panicP k P' => some (P', out.push ("!" ++ k))
     | .bad => none
 
 def valHistory (toks : List String) : Option String :=
@@ -285,7 +290,9 @@ def parseForm : String → Option Form
 
 def arith (W : Nat) (op form a b : String) : Option String := do
   let mx := maxCap W
-  let x ← parseNat a
+  let signed := op = "iadd" || op = "isub" || op = "imul"
+  let xi ← (if signed then parseInt a else (fun n : Nat => (n : Int)) <$> parseNat a)
+  let x := xi.natAbs
   let xs := natWords W x
   let frag ← (match op with
     | "add" => do let y ← parseNat b; pure (fragAdd W (← parseForm form) xs (natWords W y), some (natWords W y))
@@ -293,6 +300,15 @@ def arith (W : Nat) (op form a b : String) : Option String := do
     | "mul" => do let y ← parseNat b; pure (fragMul W 30 (← parseForm form) xs (natWords W y), some (natWords W y))
     | "div" => do let y ← parseNat b; pure (fragDivRem W false (← parseForm form) xs (natWords W y), some (natWords W y))
     | "rem" => do let y ← parseNat b; pure (fragDivRem W true (← parseForm form) xs (natWords W y), some (natWords W y))
+    | "iadd" | "isub" | "imul" => do
+      let yi ← parseInt b
+      let ys := natWords W yi.natAbs
+      let code := if op = "iadd" then 0 else if op = "isub" then 1 else 2
+      pure (fragSigned W 30 code (← parseForm form) (decide (xi < 0)) xs (decide (yi < 0)) ys, some ys)
+    | "sqr" => if form = "r" then pure (fragSqr W 30 xs, none) else none
+    | "frombytes" => do
+      let k ← parseDecNat b
+      if (form = "le" || form = "be") && x < 2 ^ (8 * k) then pure (fragFromBytes W k x, none) else none
     | "shl" => do
       let k ← parseDecNat b
       let byVal ← (if form = "v" then some true else if form = "r" then some false else none)
@@ -304,8 +320,10 @@ def arith (W : Nat) (op form a b : String) : Option String := do
     | _ => none : Option (Frag × Option (List Nat)))
   let (fr, ys) := frag
   let st0 : St := ⟨Pool.empty, Ledger.empty, 0, true, 0, #[]⟩
-  let setup : List Op := [.fromWords 0 xs, .fromBuffer 0] ++
-    (match ys with | some ys => [.fromWords 1 ys, .fromBuffer 1] | none => [])
+  let setup : List Op := (if op = "frombytes" then [] else [.fromWords 0 xs, .fromBuffer 0]) ++
+    (if signed then [.withSign 0 (decide (xi < 0))] else []) ++
+    (match ys with | some ys => [.fromWords 1 ys, .fromBuffer 1] | none => []) ++
+    (if signed then [.withSign 1 (decide ((parseInt b).getD 0 < 0))] else [])
   let st ← runQuiet W mx st0 setup
   match runFrag W mx st fr.ops with
   | .error e => pure (ok ("!model-frag-fault " ++ e))
